@@ -159,6 +159,7 @@ INT_LITS = [0, 1, 2, 3, 5, 7, 10, 63, 64, 100, 255, 1000, 65536, 2147483647, 214
 FLT_LITS = ["0.0", "1.0", "0.5", "2.5", "-1.5", "3.25", "100.0", "1e15", "1e16", "123456.789", "-0.0", "1e100", "7.0",
             "0.1", "9007199254740992.0", "1e-7", "-2.0"]
 STR_LITS = ['""', '"a"', '"abc"', '"Hello"', '"b"', '"abd"', '"x y"', '"10"', '"9"']
+MININT_TXT = "(-9223372036854775807 - 1)"      # mininteger (there is no literal for it in either language)
 TNAME = {"int": "integer", "flt": "number", "bool": "boolean", "str": "string"}
 
 
@@ -422,6 +423,8 @@ class Gen:
         r = self.rng
         if r.random() < 0.5 or not self.vars_of(t):
             if t == "int":
+                if r.random() < 0.08:
+                    return MININT_TXT
                 x = r.choice(INT_LITS)
                 return str(x)
             if t == "flt":
@@ -588,7 +591,10 @@ class Gen:
         elif rets:
             v = self.fresh("r")
             self.emit("local %s: %s = %s(%s)" % (v, TNAME[rets[0]], name, ", ".join(args)), "local %s = %s(%s)" % (v, name, ", ".join(args)))
-            self.scopes[-1].append((v, rets[0], False))
+            if self.rng.random() < 0.7:
+                self.scopes[-1].append((v, rets[0], False))
+            else:
+                self.count("unused-local-from-call")       # never read again
             self.count("call-stmt")
         else:
             self.emit("%s(%s)" % (name, ", ".join(args)))
@@ -609,13 +615,67 @@ class Gen:
             self.stmt_for()
         elif r < 0.86 and depth < 4:
             self.stmt_while()
-        elif r < 0.95:
+        elif r < 0.92:
             self.stmt_call()
+        elif r < 0.96 and getattr(self, "indirect", None):
+            self.stmt_indirect()
         else:
             self.emit("do")
             self.block(self.rng.randint(1, 3))
             self.emit("end")
             self.count("do")
+
+    # ---- state reached only through a record: stores to it are not seen by the analyzer's sideeffect
+    #      rule; it is read by dedicated print statements only, and the functions touching it are called
+    #      only as a whole statement / initialiser (never next to another operand) ----
+    def gen_indirect(self):
+        self.emit("local St = @record{a: integer, b: integer, c: number}", "local St = {}")
+        self.emit("", "St.__index = St")
+        self.emit("function St:bump(x: integer): integer", "function St:bump(x)")
+        self.emit("  self.a = self.a + x")
+        self.emit("  return self.a")
+        self.emit("end")
+        self.emit("local st: St = {a = 1, b = 2, c = 0.5}", "local st = setmetatable({a = 1, b = 2, c = 0.5}, St)")
+        kinds = [("ind_a", "int", ["int"], ["st.a = st.a * 3 + a0", "return st.a"]),
+                 ("ind_b", "bool", ["int", "int"], ["st.b = st.b + a0 - a1", "return st.b > a0"]),
+                 ("ind_c", "flt", ["flt"], ["st.c = st.c + a0 * 0.5", "st.b = st.b + 1", "return st.c"]),
+                 ("ind_n", "int", [], ["st.b = st.b ~ 5", "return 7"])]
+        self.indirect = []
+        for name, rt, argts, body in kinds:
+            args = ["a%d" % i for i in range(len(argts))]
+            self.emit("local function %s(%s): %s" % (name, ", ".join("%s: %s" % (a, TNAME[t]) for a, t in zip(args, argts)), TNAME[rt]),
+                      "local function %s(%s)" % (name, ", ".join(args)))
+            for b in body:
+                self.emit("  " + b)
+            self.emit("end")
+            self.indirect.append((name, rt, argts))
+        self.indirect.append(("st:bump", "int", ["int"]))
+
+    def stmt_indirect(self):
+        r = self.rng
+        name, rt, argts = r.choice(self.indirect)
+        args = ", ".join(self.expr(a, 2, pure=True, nocall=True)[0] for a in argts)
+        k = r.random()
+        if k < 0.45:
+            # a local that is never read afterwards (not registered in the scope): the call must still happen
+            u = self.fresh("unused")
+            if r.random() < 0.5:
+                self.emit("local %s: %s = %s(%s)" % (u, TNAME[rt], name, args), "local %s = %s(%s)" % (u, name, args))
+            else:
+                self.emit("local %s = %s(%s)" % (u, name, args))
+            self.count("unused-local-from-call")
+        elif k < 0.7:
+            self.emit("%s(%s)" % (name, args))
+            self.count("indirect-call-stmt")
+        else:
+            v = self.pick_var(rt, pure_only=True)
+            if v:
+                self.emit("%s = %s(%s)" % (v, name, args))
+            else:
+                self.emit("%s(%s)" % (name, args))
+            self.count("indirect-call-assign")
+        if r.random() < 0.5:
+            self.emit("print(st.a, st.b, st.c)")
 
     # ---- functions ----
     def gen_function(self, effectful):
@@ -691,6 +751,27 @@ class Gen:
         # callable from expressions with small arguments
         self.count("recursion-" + kind)
 
+    def gen_require_sites(self):
+        """`require` of a module without return value at several sites: in a function called with false, then
+        with true, in a branch that is not taken, twice at top level - in a random order, so that the first
+        site in the text is often not the first one executed.  The module body must run exactly once, at
+        the first require that is executed (it prints and counts)."""
+        r = self.rng
+        self.emit("global mody_count: integer = 0", "mody_count = 0")
+        self.emit("local function req_late(on: boolean)", "local function req_late(on)")
+        self.emit("  if on then")
+        self.emit("    print('req_late')")
+        self.emit("    require 'mody'")
+        self.emit("  end")
+        self.emit("end")
+        sites = ["req_late(false)", "if mody_count > 100 then require 'mody' end", "require 'mody'", "require 'mody'",
+                 "req_late(true)", "do require 'mody' end"]
+        r.shuffle(sites)
+        for i, st_ in enumerate(sites):
+            self.emit(st_)
+            self.emit("print('site', %d, mody_count)" % i)
+        self.count("require-sites")
+
     def program(self):
         r = self.rng
         self.emit("require 'string'", "")
@@ -698,6 +779,8 @@ class Gen:
             self.emit("require '%s'" % self.modname)
             self.emit("require '%s'" % self.modname)       # a module body runs once
             self.emit("print(%s_twice(21))" % self.modname)
+            if r.random() < 0.7:
+                self.gen_require_sites()
         # chunk-level variables; some are written by functions ("shared")
         for t in ["int", "int", "int", "flt", "flt", "bool", "str"]:
             self.declare(t)
@@ -710,9 +793,13 @@ class Gen:
             self.gen_function(True)
         if r.random() < 0.7:
             self.gen_recursive()
+        if r.random() < 0.6:
+            self.gen_indirect()
         for _ in range(self.size):
             self.stmt()
         # final state
+        if getattr(self, "indirect", None):
+            self.emit("print(st.a, st.b, st.c)")
         for t in ["int", "flt", "bool", "str"]:
             vs = [v for v in self.vars_of(t) if self.visible_type(v)[0] == t][:6]
             if vs:
@@ -725,6 +812,13 @@ def gen_module(name):
     n = ("print('loading %s')\nglobal function %s_twice(x: integer): integer\n  return x * 2\nend\n" % (name, name))
     l = ("print('loading %s')\nfunction %s_twice(x)\n  return x * 2\nend\n" % (name, name))
     return n, l
+
+
+def gen_module_noret(name):
+    """a module without return value: prints, loops and counts how often its body ran"""
+    t = ("print('%s: loading')\nlocal i = 0\nwhile i < 3 do\n  i = i + 1\nend\n%s_count = %s_count + 1\nprint('%s: loaded', i, %s_count)\n"
+         % (name, name, name, name, name))
+    return t, t
 
 
 def gen_program(rng, size=28, modname=None):
